@@ -32,14 +32,16 @@ class Setup:
 
     def __init__(self, S, dep, with_params):
         self.S, self.dep = S, dep
-        self.dom = abstract_domain(S, "D", S.new(R2, "x"), {"t": 1} if dep else None)
+        # the domain, the sampler's n and the sampler itself (Session.once) are the SAME in the second round of a
+        # history scenario; parameters are drawn anew
+        self.dom = S.once(lambda: abstract_domain(S, "D", S.new(R2, "x"), {"t": 1} if dep else None))
         if with_params:
             self.K = S.int("K", 1)
             self.T = S.tensor("tt", [self.K, 1])
             self.params = S.new(POINTS, self.T, S.new(R1, "t"))
         else:
             self.K, self.T, self.params = None, None, empty_points(S)
-        self.n = S.int("n", 1)
+        self.n = S.once(lambda: S.int("n", 1))
 
     @property
     def Kz(self):
@@ -87,18 +89,18 @@ for _prop in ("C01", "C02"):
     def _rus(S, _prop=_prop):
         """RandomUniformSampler with n_points: no loop, one draw of K'*n points"""
         su = _setup(S)
-        smp = S.new(RUS, su.dom.obj, n_points=su.n)
+        smp = S.once(lambda: S.new(RUS, su.dom.obj, n_points=su.n))
         pts = S.method(smp, "sample_points", su.params)
         su.check(S, _prop, pts)
         if _prop == "C02":
             S.ensure("len-equals-rows-of-a-parameter-free-call", zint(S.I.pylib.b_len(S.I, smp)) == zint(su.n))
     _rus.__name__ = "random_uniform_sampler_n_points"
-    scenario(_prop, [RUS + "._sample_points", PS + ".sample_points", PS + "._repeat_params", PS + ".__len__"], configs=CFG)(_rus)
+    scenario(_prop, [RUS + "._sample_points", PS + ".sample_points", PS + "._repeat_params", PS + ".__len__"], configs=CFG, history=True)(_rus)
 
     def _gsi(S, _prop=_prop):
         """GridSampler, domain independent of the parameters: one grid, repeated for every parameter row"""
         su = _setup(S)
-        smp = S.new(GS, su.dom.obj, n_points=su.n)
+        smp = S.once(lambda: S.new(GS, su.dom.obj, n_points=su.n))
         pts = S.method(smp, "sample_points", su.params)
         su.check(S, _prop, pts)
         if _prop == "C02":
@@ -108,7 +110,7 @@ for _prop in ("C01", "C02"):
                 S.forall("same-complete-grid-for-every-parameter-row", t, lambda q: zreal(t.at([q[0], q[1]])) == zreal(t.at([(0, q[0][1]), q[1]])), extra_hyps=lambda q: [zint(q[1][0]) < 2])
             S.ensure("len-equals-rows-of-a-parameter-free-call", zint(S.I.pylib.b_len(S.I, smp)) == zint(su.n))
     _gsi.__name__ = "grid_sampler_independent"
-    scenario(_prop, [GS + "._sample_points", PS + "._sample_params_independent", PS + ".set_length"], configs=["indep/none", "indep/K"])(_gsi)
+    scenario(_prop, [GS + "._sample_points", PS + "._sample_params_independent", PS + ".set_length"], configs=["indep/none", "indep/K"], history=True)(_gsi)
 
 
 def acc_points_loop(S, var, space_keys, n, ncols, P, label, initial="none"):
@@ -181,22 +183,26 @@ for _prop in ("C01", "C02"):
             return z3.And(su.dom.in_pred(row[:2], [tk]), row[2] == tk)
 
         S.loop(PS + "._sample_params_dependent", 0, acc_points_loop(S, "sample_points", [("x", R2), ("t", R1)], su.n, 3, P, "dependent-loop"))
-        smp = S.new(GS, su.dom.obj, n_points=su.n)
+        smp = S.once(lambda: S.new(GS, su.dom.obj, n_points=su.n))
         pts = S.method(smp, "sample_points", su.params)
         su.check(S, _prop, pts)
     _gsd.__name__ = "grid_sampler_dependent"
-    scenario(_prop, [GS + "._sample_points", PS + "._sample_params_dependent", PS + "._sample_for_ith_param", PS + "._set_sampled_points"], configs=["dep/K"])(_gsd)
+    scenario(_prop, [GS + "._sample_points", PS + "._sample_params_dependent", PS + "._sample_for_ith_param", PS + "._set_sampled_points"], configs=["dep/K"], history=True)(_gsd)
 
 
 # ----------------------------------------------------------------------------- sampler algebra
-@scenario("C02", [SB + "ProductSampler.sample_points", SB + "ProductSampler.__init__", SB + "ProductSampler.__len__", PS + ".__mul__"], configs=["none", "K"])
+@scenario("C02", [SB + "ProductSampler.sample_points", SB + "ProductSampler.__init__", SB + "ProductSampler.__len__", PS + ".__mul__"], configs=["none", "K"], history=True)
 def product_sampler(S):
     """post: rows [[K', n_b], n_a]; every point of the second factor is paired with a full sample of the first,
     drawn AT that partner point; the partner's columns (and the parameter row) are carried unchanged"""
-    na, nb = S.int("na", 1), S.int("nb", 1)
-    A = AbstractSampler(S, "A", S.new(R2, "x"), na)
-    B = AbstractSampler(S, "B", S.new(R1, "y"), nb)
-    prod = S.I.binop(ast.Mult(), A.obj, B.obj)
+    def build():
+        na, nb = S.int("na", 1), S.int("nb", 1)
+        A = AbstractSampler(S, "A", S.new(R2, "x"), na)
+        B = AbstractSampler(S, "B", S.new(R1, "y"), nb)
+        return na, nb, A, B, S.I.binop(ast.Mult(), A.obj, B.obj)
+
+    na, nb, A, B, prod = S.once(build)
+    ca, cb = len(A.calls), len(B.calls)
     if S.cfg == "K":
         K = S.int("K", 1)
         T = S.tensor("tt", [K, 1])
@@ -219,9 +225,9 @@ def product_sampler(S):
     S.ensure("rows-structured-params-second-first", struct)
     if not struct:
         return
-    S.ensure("second-factor-sampled-once-with-the-parameters", len(B.calls) == 1 and B.calls[0]["params"] is params)
-    S.ensure("first-factor-sampled-once-at-the-partner-points", len(A.calls) == 1 and A.calls[0]["params"] is B.calls[0]["result"])
-    bt = B.calls[0]["tensor"].val
+    S.ensure("second-factor-sampled-once-with-the-parameters", len(B.calls) == cb + 1 and B.calls[-1]["params"] is params)
+    S.ensure("first-factor-sampled-once-at-the-partner-points", len(A.calls) == ca + 1 and A.calls[-1]["params"] is B.calls[-1]["result"])
+    bt = B.calls[-1]["tensor"].val
 
     def partner(q):
         comps = q[0]
@@ -240,33 +246,39 @@ def product_sampler(S):
     S.ensure("len-is-rows-returned", zint(S.I.pylib.b_len(S.I, prod)) == t.shape[0].size_term())
 
 
-@scenario("C02", [SB + "ConcatSampler.sample_points", SB + "ConcatSampler.__len__", PS + ".__add__", SB + "AppendSampler.sample_points", SB + "AppendSampler.__len__", PS + ".append"], configs=["concat", "append"])
+@scenario("C02", [SB + "ConcatSampler.sample_points", SB + "ConcatSampler.__len__", PS + ".__add__", SB + "AppendSampler.sample_points", SB + "AppendSampler.__len__", PS + ".append"], configs=["concat", "append"], history=True)
 def concat_and_append_sampler(S):
     """concat: rows of the first operand followed by the rows of the second (same space); append: column-stack of
     equally long samples; len(sampler) = rows of a parameter-free call"""
-    na = S.int("na", 1)
+    na = S.once(lambda: S.int("na", 1))
     if S.cfg == "concat":
-        nb = S.int("nb", 1)
-        A = AbstractSampler(S, "A", S.new(R2, "x"), na)
-        B = AbstractSampler(S, "B", S.new(R2, "x"), nb)
-        smp = S.I.binop(ast.Add(), A.obj, B.obj)
+        def build():
+            nb = S.int("nb", 1)
+            A = AbstractSampler(S, "A", S.new(R2, "x"), na)
+            B = AbstractSampler(S, "B", S.new(R2, "x"), nb)
+            return nb, A, B, S.I.binop(ast.Add(), A.obj, B.obj)
+
+        nb, A, B, smp = S.once(build)
         pts = S.method(smp, "sample_points")
         t = tensor_of(pts)
         S.ensure("row-count-is-the-sum", t.shape[0].size_term() == zint(na) + zint(nb))
-        ta, tb = A.calls[0]["tensor"].val, B.calls[0]["tensor"].val
+        ta, tb = A.calls[-1]["tensor"].val, B.calls[-1]["tensor"].val
         r = z3.Int("r")
         S.ensure("first-rows-are-the-first-sample", z3.And([zreal(t.at([(r,), (c,)])) == zreal(ta.at([(r,), (c,)])) for c in range(2)]), [r >= 0, r < zint(na)])
         S.ensure("remaining-rows-are-the-second-sample", z3.And([zreal(t.at([(r,), (c,)])) == zreal(tb.at([(r - zint(na),), (c,)])) for c in range(2)]), [r >= zint(na), r < zint(na) + zint(nb)])
         S.ensure("len", zint(S.I.pylib.b_len(S.I, smp)) == zint(na) + zint(nb))
     else:
-        A = AbstractSampler(S, "A", S.new(R2, "x"), na)
-        B = AbstractSampler(S, "B", S.new(R1, "y"), na)
-        smp = S.method(A.obj, "append", B.obj)
+        def build():
+            A = AbstractSampler(S, "A", S.new(R2, "x"), na)
+            B = AbstractSampler(S, "B", S.new(R1, "y"), na)
+            return A, B, S.method(A.obj, "append", B.obj)
+
+        A, B, smp = S.once(build)
         pts = S.method(smp, "sample_points")
         t = tensor_of(pts)
         S.ensure("row-count", t.shape[0].size_term() == zint(na))
         S.ensure("space", list(S.getattr(pts, "space").native.keys()) == ["x", "y"])
-        ta, tb = A.calls[0]["tensor"].val, B.calls[0]["tensor"].val
+        ta, tb = A.calls[-1]["tensor"].val, B.calls[-1]["tensor"].val
         S.forall("columns-are-stacked-row-by-row", t, lambda q: z3.And(zreal(t.at([q[0], (0,)])) == zreal(ta.at([q[0], (0,)])), zreal(t.at([q[0], (1,)])) == zreal(ta.at([q[0], (1,)])), zreal(t.at([q[0], (2,)])) == zreal(tb.at([q[0], ()]))))
         S.ensure("len", zint(S.I.pylib.b_len(S.I, smp)) == zint(na))
 
@@ -405,11 +417,11 @@ for _prop in ("C01", "C02"):
         fq = GAUSS + "._sample_points"
         S.loop(fq, 0, acc_points_loop(S, "sample_points", keys, su.n, ncols, lambda k, j, row: Pk(k, row), "parameter-loop"))
         S.loop(fq, 1, filtered_points_loop(S, "new_sample_points", "current_num_of_points", {"new_points": lambda: None}, keys, ncols, Pk, "proposal-loop", lambda env: zint(env.lookup("i")[1])))
-        smp = S.new(GAUSS, su.dom.obj, su.n, [S.real("m0"), S.real("m1")], S.real("std"))
+        smp = S.once(lambda: S.new(GAUSS, su.dom.obj, su.n, [S.real("m0"), S.real("m1")], S.real("std")))
         pts = S.method(smp, "sample_points", su.params)
         su.check(S, _prop, pts)
     _gauss.__name__ = "gaussian_sampler"
-    scenario(_prop, [GAUSS + "._sample_points", GAUSS + "._check_inside_domain", GAUSS + ".__init__", GAUSS + "._check_mean_correct_dim", PS + "._set_sampled_points", PS + "._cut_tensor_to_length_n"], configs=CFG)(_gauss)
+    scenario(_prop, [GAUSS + "._sample_points", GAUSS + "._check_inside_domain", GAUSS + ".__init__", GAUSS + "._check_mean_correct_dim", PS + "._set_sampled_points", PS + "._cut_tensor_to_length_n"], configs=CFG, history=["indep/K", "dep/K"])(_gauss)
 
 
 # ----------------------------------------------------------------------------- Latin hypercube sampler (C01/C02)
@@ -432,11 +444,11 @@ for _prop in ("C01", "C02"):
             return z3.And(su.dom.in_pred(row[:2], [tk] if su.dep else []), row[2] == tk)
 
         S.loop(LHS + "._sample_points", 0, acc_points_loop(S, "sample_points", keys, su.n, ncols, lambda k, j, row: Pk(k, row), "parameter-loop"))
-        smp = S.new(LHS, su.dom.obj, su.n)
+        smp = S.once(lambda: S.new(LHS, su.dom.obj, su.n))
         pts = S.method(smp, "sample_points", su.params)
         su.check(S, _prop, pts)
     _lhs.__name__ = "lhs_sampler"
-    scenario(_prop, [LHS + "._sample_points", LHS + "._create_lhs_in_bounding_box", LHS + "._check_lhs_inside", LHS + "._append_random_points", RUS + "._sample_points"], configs=CFG)(_lhs)
+    scenario(_prop, [LHS + "._sample_points", LHS + "._create_lhs_in_bounding_box", LHS + "._check_lhs_inside", LHS + "._append_random_points", RUS + "._sample_points"], configs=CFG, history=["indep/K", "dep/K"])(_lhs)
 
 
 # ----------------------------------------------------------------------------- ExponentialIntervalSampler (C01/C02)
@@ -452,13 +464,13 @@ for _prop in ("C01", "C02"):
         shape_kind, pk, ex = S.cfg.split("/")
         prim = IntervalP()
         h = Harness(S, prim, f"{shape_kind}/{pk}")
-        n = S.int("n", 1)
+        n = S.once(lambda: S.int("n", 1))
         if shape_kind == "fn":
             def P(k, j, row):
                 return z3.And(prim.inset([row[0]], h.vals((k,))), row[1] == zreal(h.ptensor.val.at([(k,), ()])))
 
             S.loop(PS + "._sample_params_dependent", 0, acc_points_loop(S, "sample_points", [("x", R1), ("t", R1)], n, 2, P, "dependent-loop"))
-        smp = S.new(EXPS, h.dom, n, 2 if ex == "2" else 0.5)
+        smp = S.once(lambda: S.new(EXPS, h.dom, n, 2 if ex == "2" else 0.5))
         pts = S.method(smp, "sample_points", h.params)
         t = tensor_of(pts)
         haveK = h.ptensor is not None
@@ -483,4 +495,4 @@ for _prop in ("C01", "C02"):
             return
         S.forall("row-inside-the-interval-of-its-own-parameter-row", t, lambda q: prim.inset([zreal(t.at([q[0], (0,) if ncols != 1 else ()]))], h.vals(h.split(q[0])[0])))
     _exp.__name__ = "exponential_interval_sampler"
-    scenario(_prop, [EXPS + ".sample_points", EXPS + "._sample_spaced_grid", EXPS + ".__init__", PS + "._sample_params_independent", PS + "._sample_params_dependent"], configs=[f"{a}/{e}" for a in ("const/none", "const/K", "fn/K") for e in ("2", "half")])(_exp)
+    scenario(_prop, [EXPS + ".sample_points", EXPS + "._sample_spaced_grid", EXPS + ".__init__", PS + "._sample_params_independent", PS + "._sample_params_dependent"], configs=[f"{a}/{e}" for a in ("const/none", "const/K", "fn/K") for e in ("2", "half")], history=[f"{a}/2" for a in ("const/K", "fn/K")])(_exp)
